@@ -23,7 +23,7 @@ ASSUMPTIONS = [
     "block size of a response = size of its payload; sequence number and address are what a response echoes (reading of doc/regp.txt, DESIGN.md)",
 ]
 TRUSTED = ["correspondence harness harness/h_regp.c + tools/lib/vf.py (backend call log with buffer room, reply octets, return code)"]
-DESIGN_REF = "DESIGN.md section 8, C06"
+DESIGN_REF = "DESIGN.md section 0.2 (as built) and section 8, C06"
 TECHNIQUE = ("Lean 4 proofs: processing an accepted request makes exactly one backend call with the request's address, block size and received payload and emits exactly "
              "the response the document prescribes for the verdict (refinement of regp_process to Spec.Regp responses); word-size mismatch, responses, meta messages "
              "and failed receptions cause no access + differential correspondence over request/verdict/transport sessions")
